@@ -162,13 +162,50 @@ def set_slot(doc, slot, fn):
     return doc
 
 
-def _mk(base, slots_payloads, meta, options):
+def _mk(base, slots_payloads, meta, options, collide=False):
     H, T = BASES[base](), BASES[base]()
     for slot, pay in slots_payloads:
         set_slot(H, slot, lambda old, pay=pay: old + PAYLOADS[pay])
         set_slot(T, slot, lambda old, pay=pay: old + twin_text(PAYLOADS[pay]))
-    return {"hostile": H, "twin": T, "meta": meta, "options": options, "base": base,
-            "slots": [[slot_name(s), pay] for s, pay in slots_payloads]}
+    out = {"hostile": H, "twin": T, "meta": meta, "options": options, "base": base,
+           "slots": [[slot_name(s), pay] for s, pay in slots_payloads]}
+    if collide:
+        slot, pay = slots_payloads[0]
+        out["collide"] = {"kind": slot[0], "path": slot[1], "hostile_name": slot[2] + PAYLOADS[pay], "twin_name": slot[2] + twin_text(PAYLOADS[pay])}
+    return out
+
+
+def _collidable(slot):
+    """Name slots whose Python identifier is de-conflicted inside one scope: model properties, non-path parameters."""
+    kind, path, old = slot
+    if kind == "key" and path[-1] == "properties":
+        return True
+    return kind == "val" and path[-1] == "name" and len(path) >= 3 and path[-3] == "parameters" and isinstance(path[-2], int) and old not in ("pid",)
+
+
+def _add_colliding_sibling(doc, c, which):
+    """Add, next to the renamed property / parameter, a sibling whose name IS the Python identifier the generator derives for it
+    (asked from the generator's own naming function), so both fall back to the conflict spelling of their document names."""
+    from openapi_python_client.utils import PythonIdentifier
+    name = c[which]
+    sib = str(PythonIdentifier(name, "field_"))
+    if sib == name:
+        return None
+    d = doc
+    if c["kind"] == "key":
+        for k in c["path"]:
+            d = d[k]
+        if sib in d:
+            return None
+        d[sib] = {"type": "string"}
+    else:
+        for k in c["path"][:-2]:
+            d = d[k]
+        me = d[c["path"][-2]]
+        if any(isinstance(q, dict) and q.get("name") == sib for q in d):
+            return None
+        d.append({"name": sib, "in": me["in"], "schema": {"type": "string"}})
+    return sib
 
 
 def cases(tier):
@@ -186,6 +223,19 @@ def cases(tier):
                 for meta, opts in these:
                     labels = [f"slot={base}:{slot_name(slot)}", f"payload={pay}"] + ([f"meta={meta}"] if meta != "setup" else []) + [f"{k}" for k in opts]
                     yield {"labels": labels, "payload": _mk(base, [(slot, pay)], meta, opts)}
+        # names that collide with a sibling after normalisation take the generator's conflict-fallback spelling
+        for slot in slots:
+            if _collidable(slot):
+                for pay in PAYLOADS:
+                    yield {"labels": [f"slot={base}:{slot_name(slot)}", f"payload={pay}", "colliding-sibling"],
+                           "payload": _mk(base, [(slot, pay)], "none", {}, collide=True)}
+        if tier == "quick":
+            # literal_enums changes how enum / const / default values are written
+            for slot in slots:
+                if slot[0] == "val" and ("enum" in slot[1] or slot[1][-1] in ("default", "const")):
+                    for pay in PAYLOADS:
+                        yield {"labels": [f"slot={base}:{slot_name(slot)}", f"payload={pay}", "literal_enums"],
+                               "payload": _mk(base, [(slot, pay)], "none", {"literal_enums": True})}
         if tier == "quick":
             # docstrings_on_attributes changes which docstring sites exist: description slots only
             for slot in slots:
@@ -295,8 +345,10 @@ def _probe_b1(doc, res, sb):
                 kwargs["body"] = bcls.from_dict({schema["required"][0]: "rv"})
             except Exception:  # noqa: BLE001
                 kwargs.pop("body", None)
+        enum_params = {x["name"] for x in op["parameters"] if "enum" in x.get("schema", {})}
+        unesc = {n.replace("\\", "") for n in enum_params}
         for q in ep["query_params"]:
-            if q["name"].startswith("qe"):
+            if q["name"].replace("\\", "") in unesc:
                 kwargs.pop(q["py"])     # enum parameter: rely on its default
         r = wire.call(mod, "sync_detailed", lambda: wire.make_client(sb, cap), cap, kwargs)
         if not r["ok"]:
@@ -315,7 +367,7 @@ def _probe_b1(doc, res, sb):
                     out.append(("wire-name", "header", f"header {name!r} not on the wire"))
             for p in op["parameters"]:
                 d = p["schema"].get("default")
-                if p["in"] == "query" and isinstance(d, str) and p["name"].startswith("qe") and (p["name"], d) not in q["query"]:
+                if p["in"] == "query" and isinstance(d, str) and p["name"] in enum_params and (p["name"], d) not in q["query"]:
                     out.append(("default-text", "query", f"query default {d!r} of {p['name']!r} not sent: {q['query']!r}"))
             pid = next((p["name"] for p in item.get("parameters", []) if p["in"] == "path"), None)
             exp_path = path_key.replace("{" + str(pid) + "}", "argv") if pid else path_key
@@ -334,6 +386,12 @@ def _pyname(cls, name, names):
 
 
 def run_case(p):
+    if p.get("collide"):
+        p = dict(p, hostile=copy.deepcopy(p["hostile"]), twin=copy.deepcopy(p["twin"]))      # the recorded payload stays as recorded
+        a = _add_colliding_sibling(p["hostile"], p["collide"], "hostile_name")
+        b = _add_colliding_sibling(p["twin"], p["collide"], "twin_name")
+        if a is None or b is None or a != b:
+            return {"outcome": "no-collision-possible", "nontrivial": False}
     H = gen.generate(p["hostile"], meta=p["meta"], **p["options"])
     T = gen.generate(p["twin"], meta=p["meta"], **p["options"])
     key = "+".join(f"{s}/{pay}" for s, pay in p["slots"])
